@@ -20,7 +20,8 @@ THEOREMS = ["outside_the_engine_the_glue_only_waits", "delivery_needs_engine_dat
             "pending_only_advances_the_handshake", "send_only_writes", "receive_only_reads", "unlimited_receive_never_nothing",
             "send_io_inside_engine", "receive_io_inside_engine", "driver_paths_io_inside_engine",
             "receive_now_keeps_the_interest", "send_some_keeps_the_interest", "pending_keeps_the_interest", "known_interest_is_polled", "tls_send_complete", "read_steps_suffice_refuted", "driver_receive_drains_the_engine",
-            "step_budget_is_measured_against_the_operation_deadline"]
+            "step_budget_is_measured_against_the_operation_deadline", "set_timeout_fixes_the_deadline", "budgeted_step_keeps_the_invariant",
+            "budgeted_wait_gives_up_near_the_deadline"]
 
 CH, SF, CF, ST, OVH, CLOSE_NOTIFY = 120, 900, 60, 260, 22, 24
 E_SSL, E_WANT_READ, E_WANT_WRITE, E_SYSCALL, E_ZERO = 1, 2, 3, 5, 6
